@@ -255,6 +255,14 @@ func EnsureRawValue(in interface{}) reflect.Value {
 	return reflect.ValueOf(in)
 }
 
+// valueOrZero returns v, or the zero value of typ when v is the invalid value a decoded null yields
+func valueOrZero(v reflect.Value, typ reflect.Type) reflect.Value {
+	if v.IsValid() {
+		return v
+	}
+	return reflect.Zero(typ)
+}
+
 //EnsurePackValue pack the interface with value
 func EnsurePackValue(in interface{}) reflect.Value {
 	if v, ok := in.(reflect.Value); ok {
